@@ -246,3 +246,23 @@ PLANS['C13'] = dict(
          'distinct multisets of class declaration shapes.',
     assumptions=['a non-identical provides-declaration is compared by the interfaces it provides (declarations have identity equality by design)'],
 )
+
+
+def _c14_jobs(tier):
+    shards, cases = (4, 4) if tier == 'quick' else (8, 8)
+    return [dict(mode=m, shards=shards, cases=cases, nshards=shards) for m in ('py', 'c')]
+
+
+PLANS['C14'] = dict(
+    engine='adapt', level='exploration', jobs=_c14_jobs, exhaustive=True,
+    minimums=lambda t: {'call_cases': 20000 if t == 'quick' else 80000, 'registry_hook_cases': 200},
+    rule='Complete enumeration of the case product: __conform__ in {absent, returns None, returns value, body raises '
+         'ValueError/TypeError/AttributeError/KeyError, attribute access raises AttributeError / RuntimeError} x provided in '
+         '{no, via class, directly} x every hook list of length <= 2 (quick) / <= 3 (thorough) over {returns None, returns value, '
+         'raises} x alternate in {absent, given, None} x custom __adapt__ in {none} + {own, inherited, inherited via a class that '
+         'adds another interfacemethod, inherited two such levels deep} x {returns None, value, raises, delegates to the default}; '
+         'for each: I(obj[, alt]) and I.__adapt__(obj); outcome (result identity, exception identity, TypeError args) and exact '
+         'call log vs the reference; plus registry.adapter_hook vs queryAdapter.  exhaustive refers to this finite product.  '
+         'Non-trivial: at least one callee is expected to run; distinct = distinct (expected call log, outcome kind).',
+    assumptions=['the unbound-__conform__ TypeError accommodation (adapting a class) is outside the product'],
+)
